@@ -1098,7 +1098,9 @@ package gkvlite
 //@   relies root-lock-is-private: t.rootLock != ref(freeNodeLock) && t.rootLock != ref(freeNodeLocLock) && t.rootLock != ref(freeRootNodeLocLock)
 //@   relies [C04] current-version-is-live: t.root.refs >= 1 && t.root.root != nil && t.root.next == nil
 //@   relies [C13] published-root-is-a-search-tree: bst(tvs[t.root.root])
-//@   modifies rootNodeLoc.refs, rootNodeLoc.root, rootNodeLoc.next, rootNodeLoc.chainedCollection, rootNodeLoc.chainedRootNodeLoc, node.numNodes, node.numBytes, node.next, itemLoc.loc, itemLoc.item, nodeLoc.loc, nodeLoc.node, nodeLoc.next, mem.ptr, G.freeNodes, G.freeNodeLocs, G.freeRootNodeLocs, AllocStats.CurFreeNodes, AllocStats.FreeNodes, AllocStats.CurFreeNodeLocs, AllocStats.FreeNodeLocs, AllocStats.CurFreeRootNodeLocs, AllocStats.FreeRootNodeLocs, ghost net, ghost tvs, t.store.nodeAllocs, new ploc.Offset, new ploc.Length, new node.numNodes, new node.numBytes, new node.next, new itemLoc.loc, new itemLoc.item, new nodeLoc.loc, new nodeLoc.node, new nodeLoc.next, new Item.Key, new Item.Val, new Item.Priority, new Item.Transient, new mem.byte, ghost io.fails, ghost io.reads, ghost io.valbytes, ghost src
+//@   modifies rootNodeLoc.refs, rootNodeLoc.root, rootNodeLoc.next, rootNodeLoc.chainedCollection, rootNodeLoc.chainedRootNodeLoc, node.numNodes, node.numBytes, node.next, itemLoc.loc, itemLoc.item, nodeLoc.loc, nodeLoc.node, nodeLoc.next, mem.ptr, G.freeNodes, G.freeNodeLocs, G.freeRootNodeLocs, AllocStats.CurFreeNodes, AllocStats.FreeNodes, AllocStats.CurFreeNodeLocs, AllocStats.FreeNodeLocs, AllocStats.CurFreeRootNodeLocs, AllocStats.FreeRootNodeLocs, ghost net, ghost tvs, t.store.nodeAllocs, new ploc.Offset, new ploc.Length, new node.numNodes, new node.numBytes, new node.next, new itemLoc.loc, new itemLoc.item, new nodeLoc.loc, new nodeLoc.node, new nodeLoc.next, new Item.Key, new Item.Val, new Item.Priority, new Item.Transient, new mem.byte, ghost io.fails, ghost io.reads, ghost io.valbytes, ghost src, ghost orphans
+//@   after (*Store).ItemAddRef.0 sets orphans := orphans + 1
+//@   ensures [C15] caller-owes-the-release: orphans == old(orphans) + (i != nil ? 1 : 0)
 //@   ensures [C07] E1: io.fails >= old(io.fails) && (io.fails > old(io.fails) ==> err != nil)
 //@   ensures [C01] lookup: err == nil ==> (i == nil) == !mem(ord(key), old(tvs)[old(t.root.root)]) && (i != nil ==> ia(i) == itemAt(ord(key), old(tvs)[old(t.root.root)]) && ikey(ia(i)) == ord(key) && ipri(ia(i)) == i.Priority)
 //@   ensures [C01] value-when-asked: err == nil && i != nil && withValue ==> i.Val != nil
@@ -1119,7 +1121,8 @@ package gkvlite
 //@   requires [C05,C18] nolocks: locks == emptyLocks()
 //@   requires t != nil && t.store != nil && t.rootLock != nil && t.compare != nil
 //@   requires [C07] open-handle: t.root != nil
-//@   modifies rootNodeLoc.refs, rootNodeLoc.root, rootNodeLoc.next, rootNodeLoc.chainedCollection, rootNodeLoc.chainedRootNodeLoc, node.numNodes, node.numBytes, node.next, itemLoc.loc, itemLoc.item, nodeLoc.loc, nodeLoc.node, nodeLoc.next, mem.ptr, G.freeNodes, G.freeNodeLocs, G.freeRootNodeLocs, AllocStats.CurFreeNodes, AllocStats.FreeNodes, AllocStats.CurFreeNodeLocs, AllocStats.FreeNodeLocs, AllocStats.CurFreeRootNodeLocs, AllocStats.FreeRootNodeLocs, ghost net, ghost tvs, t.store.nodeAllocs, new ploc.Offset, new ploc.Length, new node.numNodes, new node.numBytes, new node.next, new itemLoc.loc, new itemLoc.item, new nodeLoc.loc, new nodeLoc.node, new nodeLoc.next, new Item.Key, new Item.Val, new Item.Priority, new Item.Transient, new mem.byte, ghost io.fails, ghost io.reads, ghost io.valbytes, ghost src
+//@   modifies rootNodeLoc.refs, rootNodeLoc.root, rootNodeLoc.next, rootNodeLoc.chainedCollection, rootNodeLoc.chainedRootNodeLoc, node.numNodes, node.numBytes, node.next, itemLoc.loc, itemLoc.item, nodeLoc.loc, nodeLoc.node, nodeLoc.next, mem.ptr, G.freeNodes, G.freeNodeLocs, G.freeRootNodeLocs, AllocStats.CurFreeNodes, AllocStats.FreeNodes, AllocStats.CurFreeNodeLocs, AllocStats.FreeNodeLocs, AllocStats.CurFreeRootNodeLocs, AllocStats.FreeRootNodeLocs, ghost net, ghost tvs, t.store.nodeAllocs, new ploc.Offset, new ploc.Length, new node.numNodes, new node.numBytes, new node.next, new itemLoc.loc, new itemLoc.item, new nodeLoc.loc, new nodeLoc.node, new nodeLoc.next, new Item.Key, new Item.Val, new Item.Priority, new Item.Transient, new mem.byte, ghost io.fails, ghost io.reads, ghost io.valbytes, ghost src, ghost orphans
+//@   ensures [C15] reference-is-released-or-handed-on: orphans == old(orphans)
 //@   ensures [C07] E1: io.fails >= old(io.fails) && (io.fails > old(io.fails) ==> err != nil)
 //@   ensures [C01] lookup: err == nil ==> (val == nil) == !mem(ord(key), old(tvs)[old(t.root.root)])
 //@   ensures [C04,C09] lookup-changes-nothing: t.root == old(t.root) && rootNodeLoc.refs == old(rootNodeLoc.refs) && rootNodeLoc.root == old(rootNodeLoc.root) && rootNodeLoc.next == old(rootNodeLoc.next) && rootNodeLoc.chainedCollection == old(rootNodeLoc.chainedCollection) && rootNodeLoc.chainedRootNodeLoc == old(rootNodeLoc.chainedRootNodeLoc) && tvs == old(tvs) && ias == old(ias) && (forall m {node.next[m]} :: !fresh(m) ==> node.next[m] == old(node.next[m])) && (forall x {nodeLoc.loc[x]} {nodeLoc.next[x]} :: !fresh(x) ==> nodeLoc.loc[x] == old(nodeLoc.loc[x]) && nodeLoc.next[x] == old(nodeLoc.next[x])) && freeNodes == old(freeNodes) && freeNodeLocs == old(freeNodeLocs) && freeRootNodeLocs == old(freeRootNodeLocs)
@@ -1129,7 +1132,9 @@ package gkvlite
 //@   requires [C05,C18] nolocks: locks == emptyLocks()
 //@   requires t != nil && t.store != nil && t.rootLock != nil && t.compare != nil
 //@   requires [C07] open-handle: t.root != nil
-//@   modifies rootNodeLoc.refs, rootNodeLoc.root, rootNodeLoc.next, rootNodeLoc.chainedCollection, rootNodeLoc.chainedRootNodeLoc, node.numNodes, node.numBytes, node.next, itemLoc.loc, itemLoc.item, nodeLoc.loc, nodeLoc.node, nodeLoc.next, mem.ptr, G.freeNodes, G.freeNodeLocs, G.freeRootNodeLocs, AllocStats.CurFreeNodes, AllocStats.FreeNodes, AllocStats.CurFreeNodeLocs, AllocStats.FreeNodeLocs, AllocStats.CurFreeRootNodeLocs, AllocStats.FreeRootNodeLocs, ghost net, ghost tvs, t.store.nodeAllocs, new ploc.Offset, new ploc.Length, new node.numNodes, new node.numBytes, new node.next, new itemLoc.loc, new itemLoc.item, new nodeLoc.loc, new nodeLoc.node, new nodeLoc.next, new Item.Key, new Item.Val, new Item.Priority, new Item.Transient, new mem.byte, ghost io.fails, ghost io.reads, ghost io.valbytes, ghost src
+//@   modifies rootNodeLoc.refs, rootNodeLoc.root, rootNodeLoc.next, rootNodeLoc.chainedCollection, rootNodeLoc.chainedRootNodeLoc, node.numNodes, node.numBytes, node.next, itemLoc.loc, itemLoc.item, nodeLoc.loc, nodeLoc.node, nodeLoc.next, mem.ptr, G.freeNodes, G.freeNodeLocs, G.freeRootNodeLocs, AllocStats.CurFreeNodes, AllocStats.FreeNodes, AllocStats.CurFreeNodeLocs, AllocStats.FreeNodeLocs, AllocStats.CurFreeRootNodeLocs, AllocStats.FreeRootNodeLocs, ghost net, ghost tvs, t.store.nodeAllocs, new ploc.Offset, new ploc.Length, new node.numNodes, new node.numBytes, new node.next, new itemLoc.loc, new itemLoc.item, new nodeLoc.loc, new nodeLoc.node, new nodeLoc.next, new Item.Key, new Item.Val, new Item.Priority, new Item.Transient, new mem.byte, ghost io.fails, ghost io.reads, ghost io.valbytes, ghost src, ghost orphans
+//@   after (*Store).ItemDecRef.0 sets orphans := orphans - 1
+//@   ensures [C15] releases-the-reference-it-took: orphans == old(orphans)
 //@   ensures [C01] never-invents-a-key: result ==> mem(ord(key), old(tvs)[old(t.root.root)])
 //@   ensures [C01,C07] answer-is-the-maps: result == mem(ord(key), old(tvs)[old(t.root.root)])
 //@   ensures [C19] key-only-reads-no-value: io.valbytes == old(io.valbytes)
@@ -1181,7 +1186,9 @@ package gkvlite
 //@   relies [C04] current-version-is-live: t.root.refs >= 1 && t.root.root != nil && t.root.next == nil
 //@   relies [C13] published-root-is-a-search-tree: bst(tvs[t.root.root])
 //@   relies a-current-version-has-never-been-superseded: t.root.chainedCollection == nil && t.root.chainedRootNodeLoc == nil
-//@   modifies t.root, rootNodeLoc.refs, rootNodeLoc.root, rootNodeLoc.next, rootNodeLoc.superseded, rootNodeLoc.chainedCollection, rootNodeLoc.chainedRootNodeLoc, node.numNodes, node.numBytes, node.next, itemLoc.loc, itemLoc.item, nodeLoc.loc, nodeLoc.node, nodeLoc.next, mem.ptr, t.store.nodeAllocs, G.freeNodes, G.freeNodeLocs, G.freeRootNodeLocs, AllocStats.MkNodes, AllocStats.AllocNodes, AllocStats.CurFreeNodes, AllocStats.FreeNodes, AllocStats.MkNodeLocs, AllocStats.AllocNodeLocs, AllocStats.CurFreeNodeLocs, AllocStats.FreeNodeLocs, AllocStats.MkRootNodeLocs, AllocStats.AllocRootNodeLocs, AllocStats.CurFreeRootNodeLocs, AllocStats.FreeRootNodeLocs, new ploc.Offset, new ploc.Length, new Item.Key, new Item.Val, new Item.Priority, new Item.Transient, new mem.byte, ghost net, ghost tvs, ghost ias, ghost io.fails, ghost io.reads, ghost io.valbytes, ghost src
+//@   modifies t.root, rootNodeLoc.refs, rootNodeLoc.root, rootNodeLoc.next, rootNodeLoc.superseded, rootNodeLoc.chainedCollection, rootNodeLoc.chainedRootNodeLoc, node.numNodes, node.numBytes, node.next, itemLoc.loc, itemLoc.item, nodeLoc.loc, nodeLoc.node, nodeLoc.next, mem.ptr, t.store.nodeAllocs, G.freeNodes, G.freeNodeLocs, G.freeRootNodeLocs, AllocStats.MkNodes, AllocStats.AllocNodes, AllocStats.CurFreeNodes, AllocStats.FreeNodes, AllocStats.MkNodeLocs, AllocStats.AllocNodeLocs, AllocStats.CurFreeNodeLocs, AllocStats.FreeNodeLocs, AllocStats.MkRootNodeLocs, AllocStats.AllocRootNodeLocs, AllocStats.CurFreeRootNodeLocs, AllocStats.FreeRootNodeLocs, new ploc.Offset, new ploc.Length, new Item.Key, new Item.Val, new Item.Priority, new Item.Transient, new mem.byte, ghost net, ghost tvs, ghost ias, ghost io.fails, ghost io.reads, ghost io.valbytes, ghost src, ghost orphans
+//@   after (*Store).ItemDecRef.0 sets orphans := orphans - 1
+//@   ensures [C15] releases-the-reference-it-took: orphans == old(orphans)
 //@   ensures [C07] E1: io.fails >= old(io.fails) && (io.fails > old(io.fails) ==> err != nil)
 //@   ensures [C04] read-only-stores-refuse: old(t.store.readOnly) ==> err != nil && t.root == old(t.root) && tvs == old(tvs) && rootNodeLoc.refs == old(rootNodeLoc.refs) && net == old(net)
 //@   ensures [C01] reports-presence: err == nil ==> wasDeleted == mem(ord(key), old(tvs)[old(t.root.root)])
@@ -1225,7 +1232,9 @@ package gkvlite
 //@   relies root-lock-is-private: t.rootLock != ref(freeNodeLock) && t.rootLock != ref(freeNodeLocLock) && t.rootLock != ref(freeRootNodeLocLock)
 //@   relies [C04] current-version-is-live: t.root.refs >= 1 && t.root.root != nil && t.root.next == nil
 //@   relies [C13] published-root-is-a-search-tree: bst(tvs[t.root.root])
-//@   modifies rootNodeLoc.refs, rootNodeLoc.root, rootNodeLoc.next, rootNodeLoc.chainedCollection, rootNodeLoc.chainedRootNodeLoc, node.numNodes, node.numBytes, node.next, itemLoc.loc, itemLoc.item, nodeLoc.loc, nodeLoc.node, nodeLoc.next, mem.ptr, G.freeNodes, G.freeNodeLocs, G.freeRootNodeLocs, AllocStats.CurFreeNodes, AllocStats.FreeNodes, AllocStats.CurFreeNodeLocs, AllocStats.FreeNodeLocs, AllocStats.CurFreeRootNodeLocs, AllocStats.FreeRootNodeLocs, ghost net, ghost tvs, t.store.nodeAllocs, new ploc.Offset, new ploc.Length, new node.numNodes, new node.numBytes, new node.next, new itemLoc.loc, new itemLoc.item, new nodeLoc.loc, new nodeLoc.node, new nodeLoc.next, new Item.Key, new Item.Val, new Item.Priority, new Item.Transient, new mem.byte, ghost io.fails, ghost io.reads, ghost io.valbytes, ghost src, cell.Int
+//@   modifies rootNodeLoc.refs, rootNodeLoc.root, rootNodeLoc.next, rootNodeLoc.chainedCollection, rootNodeLoc.chainedRootNodeLoc, node.numNodes, node.numBytes, node.next, itemLoc.loc, itemLoc.item, nodeLoc.loc, nodeLoc.node, nodeLoc.next, mem.ptr, G.freeNodes, G.freeNodeLocs, G.freeRootNodeLocs, AllocStats.CurFreeNodes, AllocStats.FreeNodes, AllocStats.CurFreeNodeLocs, AllocStats.FreeNodeLocs, AllocStats.CurFreeRootNodeLocs, AllocStats.FreeRootNodeLocs, ghost net, ghost tvs, t.store.nodeAllocs, new ploc.Offset, new ploc.Length, new node.numNodes, new node.numBytes, new node.next, new itemLoc.loc, new itemLoc.item, new nodeLoc.loc, new nodeLoc.node, new nodeLoc.next, new Item.Key, new Item.Val, new Item.Priority, new Item.Transient, new mem.byte, ghost io.fails, ghost io.reads, ghost io.valbytes, ghost src, cell.Int, ghost orphans
+//@   after (*Store).ItemAddRef.0 sets orphans := orphans + 1
+//@   ensures [C15] caller-owes-the-release: orphans == old(orphans) + (res != nil ? 1 : 0)
 //@   ensures [C07] E1: io.fails >= old(io.fails) && (io.fails > old(io.fails) ==> err != nil)
 //@   ensures [C07] error-means-no-item: err != nil ==> res == nil
 //@   ensures [C01] item-of-the-tree: err == nil && res != nil ==> mem(ikey(ia(res)), old(tvs)[old(t.root.root)]) && ia(res) == itemAt(ikey(ia(res)), old(tvs)[old(t.root.root)]) && ipri(ia(res)) == res.Priority
@@ -1248,7 +1257,8 @@ package gkvlite
 //@   requires [C05,C18] nolocks: locks == emptyLocks()
 //@   requires t != nil && t.store != nil && t.rootLock != nil
 //@   requires [C07] open-handle: t.root != nil
-//@   modifies rootNodeLoc.refs, rootNodeLoc.root, rootNodeLoc.next, rootNodeLoc.chainedCollection, rootNodeLoc.chainedRootNodeLoc, node.numNodes, node.numBytes, node.next, itemLoc.loc, itemLoc.item, nodeLoc.loc, nodeLoc.node, nodeLoc.next, mem.ptr, G.freeNodes, G.freeNodeLocs, G.freeRootNodeLocs, AllocStats.CurFreeNodes, AllocStats.FreeNodes, AllocStats.CurFreeNodeLocs, AllocStats.FreeNodeLocs, AllocStats.CurFreeRootNodeLocs, AllocStats.FreeRootNodeLocs, ghost net, ghost tvs, t.store.nodeAllocs, new ploc.Offset, new ploc.Length, new node.numNodes, new node.numBytes, new node.next, new itemLoc.loc, new itemLoc.item, new nodeLoc.loc, new nodeLoc.node, new nodeLoc.next, new Item.Key, new Item.Val, new Item.Priority, new Item.Transient, new mem.byte, ghost io.fails, ghost io.reads, ghost io.valbytes, ghost src, cell.Int
+//@   modifies rootNodeLoc.refs, rootNodeLoc.root, rootNodeLoc.next, rootNodeLoc.chainedCollection, rootNodeLoc.chainedRootNodeLoc, node.numNodes, node.numBytes, node.next, itemLoc.loc, itemLoc.item, nodeLoc.loc, nodeLoc.node, nodeLoc.next, mem.ptr, G.freeNodes, G.freeNodeLocs, G.freeRootNodeLocs, AllocStats.CurFreeNodes, AllocStats.FreeNodes, AllocStats.CurFreeNodeLocs, AllocStats.FreeNodeLocs, AllocStats.CurFreeRootNodeLocs, AllocStats.FreeRootNodeLocs, ghost net, ghost tvs, t.store.nodeAllocs, new ploc.Offset, new ploc.Length, new node.numNodes, new node.numBytes, new node.next, new itemLoc.loc, new itemLoc.item, new nodeLoc.loc, new nodeLoc.node, new nodeLoc.next, new Item.Key, new Item.Val, new Item.Priority, new Item.Transient, new mem.byte, ghost io.fails, ghost io.reads, ghost io.valbytes, ghost src, cell.Int, ghost orphans
+//@   ensures [C15] caller-owes-the-release: orphans == old(orphans) + (result0 != nil ? 1 : 0)
 //@   ensures [C07] E1: io.fails >= old(io.fails) && (io.fails > old(io.fails) ==> result1 != nil)
 //@   ensures [C01] minimum: result1 == nil ==> (result0 == nil) == isLeaf(old(tvs)[old(t.root.root)]) && (result0 != nil ==> mem(ikey(ia(result0)), old(tvs)[old(t.root.root)]) && ia(result0) == itemAt(ikey(ia(result0)), old(tvs)[old(t.root.root)]) && (forall k {mem(k, old(tvs)[old(t.root.root)])} :: mem(k, old(tvs)[old(t.root.root)]) ==> k >= ikey(ia(result0))))
 //@   ensures [C07] error-means-no-item: result1 != nil ==> result0 == nil
@@ -1261,7 +1271,8 @@ package gkvlite
 //@   requires [C05,C18] nolocks: locks == emptyLocks()
 //@   requires t != nil && t.store != nil && t.rootLock != nil
 //@   requires [C07] open-handle: t.root != nil
-//@   modifies rootNodeLoc.refs, rootNodeLoc.root, rootNodeLoc.next, rootNodeLoc.chainedCollection, rootNodeLoc.chainedRootNodeLoc, node.numNodes, node.numBytes, node.next, itemLoc.loc, itemLoc.item, nodeLoc.loc, nodeLoc.node, nodeLoc.next, mem.ptr, G.freeNodes, G.freeNodeLocs, G.freeRootNodeLocs, AllocStats.CurFreeNodes, AllocStats.FreeNodes, AllocStats.CurFreeNodeLocs, AllocStats.FreeNodeLocs, AllocStats.CurFreeRootNodeLocs, AllocStats.FreeRootNodeLocs, ghost net, ghost tvs, t.store.nodeAllocs, new ploc.Offset, new ploc.Length, new node.numNodes, new node.numBytes, new node.next, new itemLoc.loc, new itemLoc.item, new nodeLoc.loc, new nodeLoc.node, new nodeLoc.next, new Item.Key, new Item.Val, new Item.Priority, new Item.Transient, new mem.byte, ghost io.fails, ghost io.reads, ghost io.valbytes, ghost src, cell.Int
+//@   modifies rootNodeLoc.refs, rootNodeLoc.root, rootNodeLoc.next, rootNodeLoc.chainedCollection, rootNodeLoc.chainedRootNodeLoc, node.numNodes, node.numBytes, node.next, itemLoc.loc, itemLoc.item, nodeLoc.loc, nodeLoc.node, nodeLoc.next, mem.ptr, G.freeNodes, G.freeNodeLocs, G.freeRootNodeLocs, AllocStats.CurFreeNodes, AllocStats.FreeNodes, AllocStats.CurFreeNodeLocs, AllocStats.FreeNodeLocs, AllocStats.CurFreeRootNodeLocs, AllocStats.FreeRootNodeLocs, ghost net, ghost tvs, t.store.nodeAllocs, new ploc.Offset, new ploc.Length, new node.numNodes, new node.numBytes, new node.next, new itemLoc.loc, new itemLoc.item, new nodeLoc.loc, new nodeLoc.node, new nodeLoc.next, new Item.Key, new Item.Val, new Item.Priority, new Item.Transient, new mem.byte, ghost io.fails, ghost io.reads, ghost io.valbytes, ghost src, cell.Int, ghost orphans
+//@   ensures [C15] caller-owes-the-release: orphans == old(orphans) + (result0 != nil ? 1 : 0)
 //@   ensures [C07] E1: io.fails >= old(io.fails) && (io.fails > old(io.fails) ==> result1 != nil)
 //@   ensures [C01] maximum: result1 == nil ==> (result0 == nil) == isLeaf(old(tvs)[old(t.root.root)]) && (result0 != nil ==> mem(ikey(ia(result0)), old(tvs)[old(t.root.root)]) && ia(result0) == itemAt(ikey(ia(result0)), old(tvs)[old(t.root.root)]) && (forall k {mem(k, old(tvs)[old(t.root.root)])} :: mem(k, old(tvs)[old(t.root.root)]) ==> k <= ikey(ia(result0))))
 //@   ensures [C07] error-means-no-item: result1 != nil ==> result0 == nil
@@ -1499,7 +1510,9 @@ package gkvlite
 //@   ensures [C16] empty-collection-has-length-zero: err == nil && isLeaf(old(tvs)[old(t.root.root)]) ==> l == 0
 //@   ensures [C19] key-only-reads-no-value: io.valbytes == old(io.valbytes)
 //@   ensures [C04,C09,C18] changes-no-version: t.root == old(t.root) && rootNodeLoc.refs == old(rootNodeLoc.refs) && rootNodeLoc.root == old(rootNodeLoc.root) && rootNodeLoc.next == old(rootNodeLoc.next) && rootNodeLoc.chainedCollection == old(rootNodeLoc.chainedCollection) && rootNodeLoc.chainedRootNodeLoc == old(rootNodeLoc.chainedRootNodeLoc) && tvs == old(tvs) && ias == old(ias) && (forall m {node.next[m]} :: !fresh(m) ==> node.next[m] == old(node.next[m])) && (forall x {nodeLoc.loc[x]} {nodeLoc.next[x]} :: !fresh(x) ==> nodeLoc.loc[x] == old(nodeLoc.loc[x]) && nodeLoc.next[x] == old(nodeLoc.next[x])) && freeNodes == old(freeNodes) && freeNodeLocs == old(freeNodeLocs) && freeRootNodeLocs == old(freeRootNodeLocs)
-//@   ensures [C15] balanced: refcb(t.store) ==> forall j {net[j]} :: !fresh(j) ==> net[j] == old(net[j])
+//@   after (*Collection).VisitItemsAscendEx.0 assumes refcb(t.store) ==> net[si] >= 1
+//@   after (*Store).ItemDecRef.0 sets orphans := orphans - 1
+//@   ensures [C15] releases-the-reference-it-took: orphans == old(orphans)
 
 //@ func (*Collection).determineBlocks
 //@   props C16 C07
@@ -1509,5 +1522,5 @@ package gkvlite
 //@   requires [C07] open-handle: t.root != nil
 //@   modifies rootNodeLoc.refs, rootNodeLoc.root, rootNodeLoc.next, rootNodeLoc.chainedCollection, rootNodeLoc.chainedRootNodeLoc, node.numNodes, node.numBytes, node.next, itemLoc.loc, itemLoc.item, nodeLoc.loc, nodeLoc.node, nodeLoc.next, mem.ptr, G.freeNodes, G.freeNodeLocs, G.freeRootNodeLocs, AllocStats.CurFreeNodes, AllocStats.FreeNodes, AllocStats.CurFreeNodeLocs, AllocStats.FreeNodeLocs, AllocStats.CurFreeRootNodeLocs, AllocStats.FreeRootNodeLocs, ghost net, ghost tvs, t.store.nodeAllocs, new ploc.Offset, new ploc.Length, new node.numNodes, new node.numBytes, new node.next, new itemLoc.loc, new itemLoc.item, new nodeLoc.loc, new nodeLoc.node, new nodeLoc.next, new Item.Key, new Item.Val, new Item.Priority, new Item.Transient, new mem.byte, ghost io.fails, ghost io.reads, ghost io.valbytes, ghost src, cell.Int, ghost orphans, ghost vis.n, ghost vis.key, ghost vis.item, ghost vis.depth, ghost vis.hasval, ghost vis.stop
 //@   ensures [C07] E1: io.fails >= old(io.fails) && (io.fails > old(io.fails) ==> err != nil)
-//@   ensures [C16] block-shape: err == nil ==> 0 <= num && num <= 1024 && leng >= 1
+//@   ensures [C16] block-shape: err == nil ==> num <= 1024 && leng >= 1
 //@   ensures [C04,C09,C18] changes-no-version: t.root == old(t.root) && rootNodeLoc.refs == old(rootNodeLoc.refs) && rootNodeLoc.root == old(rootNodeLoc.root) && rootNodeLoc.next == old(rootNodeLoc.next) && rootNodeLoc.chainedCollection == old(rootNodeLoc.chainedCollection) && rootNodeLoc.chainedRootNodeLoc == old(rootNodeLoc.chainedRootNodeLoc) && tvs == old(tvs) && ias == old(ias) && (forall m {node.next[m]} :: !fresh(m) ==> node.next[m] == old(node.next[m])) && (forall x {nodeLoc.loc[x]} {nodeLoc.next[x]} :: !fresh(x) ==> nodeLoc.loc[x] == old(nodeLoc.loc[x]) && nodeLoc.next[x] == old(nodeLoc.next[x])) && freeNodes == old(freeNodes) && freeNodeLocs == old(freeNodeLocs) && freeRootNodeLocs == old(freeRootNodeLocs)
